@@ -1167,6 +1167,9 @@ func (in *interp) commit(w *wtxn) {
 		closedBefore[ws] = isClosed(ws.ch)
 	}
 	in.consumeHeld(w, 0, "before Commit")
+	if len(in.ws) >= 2 && w.okWrites > 0 {
+		in.res.class("commit_while_other_open")
+	}
 	in.committing = w
 	rtxn := w.txn.Commit()
 	in.committing = nil
@@ -1234,6 +1237,9 @@ func (in *interp) commit(w *wtxn) {
 				in.viol("C09", "revision-decreased", "the revision of table t%d went from %d to %d across a Commit that did not target it", t, pre.tables[t].rev, rev)
 			}
 			if d := lightDigest(in.tbls[t], fresh); d != modelDigest(post.tables[t]) {
+				if in.own == "C05" {
+					in.viol("C05", "lost-write", "after a Commit that did not target table t%d a fresh snapshot no longer shows the state committed to it earlier (a committed write was lost or overwritten by a stale state)", t)
+				}
 				in.viol("C02", "commit-other-table", "after a Commit that did not target table t%d a fresh snapshot shows a different state of it", t)
 			}
 		}
@@ -1880,6 +1886,8 @@ func (in *interp) finish() {
 		}
 	case "C02":
 		in.res.nontrivial = in.res.classes["commit_writes_in_2plus_tables"] > 0 || in.res.classes["abort_with_writes"] > 0
+	case "C05":
+		in.res.nontrivial = in.res.classes["commit_while_other_open"] > 0
 	case "C03":
 		in.res.nontrivial = in.res.classes["nt_c03"] > 0
 	case "C04":
